@@ -305,6 +305,7 @@ func checkC04(p *Prog, r *Report) {
 	c04Prepared(p, r, rr)
 	c04Initial(p, r, rr)
 	sendResult(p, r, "C04.send-result", rr)
+	c12MetadataBeforeReply(p, r, "C04.metadata-before-reply")
 }
 
 // classifier models shared by check/batch: fork into (true,nil) (false,nil) (false,err)
